@@ -367,6 +367,19 @@ z, (y & ((!x & z) | (x & !z))) | !b
 """
 
 
+def DEP4_bnets():
+    """a two-variable feedback core (c, d) below two dependent self-sustaining variables (a, b), every choice of operator,
+    regulator and sign: 4-variable networks whose source blocks contain each other (shape contributed by seeded change C03-w5-2;
+    the dependents sort before the core on purpose)"""
+    out = []
+    deps = [f"{{x}} {op} {neg}{r}" for op in ("|", "&") for neg in ("", "!") for r in ("c", "d")]
+    for core in ("c, d\nd, c", "c, !d\nd, !c"):
+        for fa in deps:
+            for fb in deps:
+                out.append(f"a, {fa.format(x='a')}\nb, {fb.format(x='b')}\n{core}\n")
+    return out
+
+
 def resolve(spec):
     spec = list(spec)
     k = spec[0]
